@@ -75,6 +75,41 @@ GAMMAS = {
 }
 
 
+class Reentrant:
+    """A gamma callback that, before answering, has the library rate and predict an
+    UNRELATED game (its own model object of the same class, its own players) - re-entrancy on
+    one thread.  Its return value is that of the pure callback `base`, so a reference model
+    constructed with `base` must return the same numbers."""
+
+    _leaguesim_opaque = True
+
+    def __init__(self, base, model_cls, kw):
+        self.base = base
+        self.cls = model_cls
+        self.kw = kw
+        self.side = None
+        self.busy = False
+        self.calls = 0
+
+    def __call__(self, c, k, mu, sigma_squared, team, rank):
+        if not self.busy:
+            self.busy = True
+            try:
+                if self.side is None:
+                    self.side = self.cls(**self.kw)
+                m = self.side
+                self.calls += 1
+                t = [[m.rating(mu=self.kw.get("mu", 25.0) * 1.1)], [m.rating(), m.rating()], [m.rating()]]
+                m.rate(t, ranks=[1, 1, 2] if self.calls % 2 else None)
+                if self.calls % 3 == 0:
+                    m.predict_draw(t)
+            except Exception:
+                pass
+            finally:
+                self.busy = False
+        return self.base(c, k, mu, sigma_squared, team, rank)
+
+
 class GammaCrash:
     """Wraps a gamma callback; raises `exc` at its k-th invocation (crash_callback fault)."""
 
@@ -146,7 +181,9 @@ def gen_config(rng, want=None):
             tau = 25.0 / 300.0 * s
     limit_sigma = rng.random() < 0.35
     r = rng.random()
-    gamma = "default" if r < 0.55 else rng.choice(sorted(GAMMAS))
+    gamma = "default" if r < 0.5 else rng.choice(sorted(GAMMAS))
+    if r >= 0.93:
+        gamma = "re:" + rng.choice(["one", "invk", "sqrt", "rank"])
     cfg = {
         "model": name,
         "scale": enc(s),
@@ -166,13 +203,19 @@ def gen_config(rng, want=None):
     return cfg
 
 
-def build_model(cfg, tau=None, limit_sigma=None, gamma_wrap=None, lib=None):
+def build_model(cfg, tau=None, limit_sigma=None, gamma_wrap=None, lib=None, reference=False):
     """Construct the model from its constructor kwargs; `tau`/`limit_sigma` override (encoded
-    values are NOT expected here: pass decoded python values)."""
+    values are NOT expected here: pass decoded python values).  gamma "re:<name>" is the
+    re-entrant version of the pure callback <name>; a `reference` model gets the pure one."""
     kw = {}
+    reentrant = None
     for k, v in cfg["kwargs"].items():
         if k == "gamma":
-            if v != "default":
+            if v.startswith("re:"):
+                reentrant = v[3:]
+                if reference:
+                    kw["gamma"] = GAMMAS[reentrant]
+            elif v != "default":
                 kw["gamma"] = GAMMAS[v]
         elif k == "limit_sigma":
             kw[k] = v
@@ -182,6 +225,10 @@ def build_model(cfg, tau=None, limit_sigma=None, gamma_wrap=None, lib=None):
         kw["tau"] = tau
     if limit_sigma is not None:
         kw["limit_sigma"] = limit_sigma
+    if reentrant and not reference:
+        side_kw = {k: v for k, v in kw.items() if k != "gamma"}
+        side_kw["tau"] = float(side_kw.get("tau", 0.0)) * 1.5 + 0.01 * float(side_kw.get("beta", 1.0))
+        kw["gamma"] = Reentrant(GAMMAS[reentrant], model_class(cfg["model"], lib), side_kw)
     if gamma_wrap is not None:
         if "gamma" in kw:
             kw["gamma"] = gamma_wrap(kw["gamma"])
